@@ -9,12 +9,12 @@ use crate::json::J;
 use crate::model::*;
 use crate::rng::Rng;
 
-pub const RULE: &str = "case = one sampling run: dataset of 2..60 DNA or protein sequences (lengths width+1..300; random, with sparse wildcards, one fully masked sequence whose every window holds a wildcard, or tiny datasets whose background lacks symbols), width 2..30, mode Oops or Zoops (seeds >= 2, several inertia / patience settings), 150..2000 steps, dispatcher forced to each arm. After construction and after EVERY next() the trace checker recomputes from the linear sequences and the reported (active sequences, starts): motif counts = window counts, background = normalised (symbol counts - window counts) of the active sequences, every start + width <= sequence length, Iteration.counts = counts of the previous alignment without the held-out sequence, step increments by one; a twin run with the same data / parameters / seed must give an identical trace. Non-trivial = run in which some start changed; distinct = distinct (dataset, parameters, seed).";
+pub const RULE: &str = "case = one sampling run: dataset of 2..60 DNA or protein sequences (lengths width+1..300; random, with sparse wildcards, one fully masked sequence whose every window holds a wildcard, or tiny datasets whose background lacks symbols; some striped sequences carry more look-ahead rows than the width needs), width 2..30, mode Oops or Zoops (seeds >= 2, several inertia / patience settings), 150..2000 steps, dispatcher forced to each arm. After construction and after EVERY next() the trace checker recomputes from the linear sequences and the reported (active sequences, starts): motif counts = window counts, background = normalised (symbol counts - window counts) of the active sequences, every start + width <= sequence length, Iteration.counts = counts of the previous alignment without the held-out sequence, step increments by one; a twin run with the same data / parameters / seed must give an identical trace. Non-trivial = run in which some start changed; distinct = distinct (dataset, parameters, seed).";
 
 pub const REQUIRED: &[&str] = &[
     "alphabet.dna", "alphabet.protein", "mode.oops", "mode.zoops", "arm.dispatch[generic]", "arm.dispatch[sse2]",
     "arm.dispatch[avx2]", "arm.dispatch[auto]", "steps.checked", "start_changed", "zoops.inclusion", "zoops.rejection",
-    "zoops.inactive_holdout", "data.masked_sequence", "data.sparse_background", "data.sampled_striped_sequences", "twin.compared", "dispatch_forced.generic",
+    "zoops.inactive_holdout", "data.masked_sequence", "data.sparse_background", "data.sampled_striped_sequences", "class.wrap_exceeds_width", "twin.compared", "dispatch_forced.generic",
     "dispatch_forced.sse2", "dispatch_forced.avx2",
 ];
 
@@ -64,9 +64,12 @@ fn run_once<A: Alphabet>(
         Some(seed) => sampled_sequences::<A>(seed, seqs.iter().map(|s| s.len()).collect(), width),
         None => seqs
             .iter()
-            .map(|s| {
+            .enumerate()
+            .map(|(i, s)| {
                 let mut st: StripedSequence<A, U32> = stripe_generic(&encoded::<A>(s));
-                st.configure_wrap(width);
+                // some sequences carry more look-ahead rows than the width needs (they served a
+                // longer motif before); a function of the data only, so that repeated runs agree
+                st.configure_wrap(width + extra_wrap(s.len(), width, i));
                 st
             })
             .collect(),
@@ -74,6 +77,11 @@ fn run_once<A: Alphabet>(
     let data = SamplerData::new(&striped);
     let mut trace: Vec<Snapshot> = Vec::new();
     let mut rep = rep;
+    if striped.iter().any(|s| s.wrap() > width) {
+        if let Some(r) = rep.as_mut() {
+            r.cover("class.wrap_exceeds_width");
+        }
+    }
     let fail = |kind: &str, msg: String, step: usize| (kind.to_string(), msg, desc.clone().set("failing_step", J::u(step)));
 
     let built = guard(|| {
@@ -241,10 +249,14 @@ fn sampled_sequences<A: Alphabet>(seed: u64, lens: Vec<usize>, width: usize) -> 
         .enumerate()
         .map(|(i, &l)| {
             let mut st: StripedSequence<A, U32> = StripedSequence::sample(Rng::new(seed.wrapping_add(i as u64)), lightmotif::abc::Background::<A>::uniform(), l);
-            st.configure_wrap(width);
+            st.configure_wrap(width + extra_wrap(l, width, i));
             st
         })
         .collect()
+}
+
+fn extra_wrap(len: usize, width: usize, index: usize) -> usize {
+    [0usize, 0, 0, 1, 7, 24, 40][(len * 31 + width * 7 + index) % 7]
 }
 
 fn gen_dataset(rng: &mut Rng, rep: &mut Report, k: usize, width: usize, flavour: usize) -> Vec<Vec<u8>> {
